@@ -292,7 +292,8 @@ def report(prop, tier, seed, mod, agg, wall):
     if agg["evaluations"] == 0:
         inconclusive.append("no evaluations")
 
-    os.makedirs(os.path.join(VERIF, "evidence"), exist_ok=True)
+    evdir = os.environ.get("VMON_EVIDENCE_DIR") or os.path.join(VERIF, "evidence")
+    os.makedirs(evdir, exist_ok=True)
     os.makedirs(os.path.join(VERIF, "replay"), exist_ok=True)
     replay_paths = []
     seen_mon = set()
@@ -336,7 +337,7 @@ def report(prop, tier, seed, mod, agg, wall):
         wall_s=round(wall, 2),
         violations=len(new),
     )
-    with open(os.path.join(VERIF, "evidence", f"{prop}.json"), "w") as f:
+    with open(os.path.join(evdir, f"{prop}.json"), "w") as f:
         json.dump(jsonable(ev), f, indent=1, ensure_ascii=True)
 
     print(f"[{prop}] tier={tier} seed={seed} evaluations={agg['evaluations']} "
